@@ -8,13 +8,21 @@ plus the documented meaning (`sat`, `findAllSpec`).  Core Lean only.
 External functions never run inside Lean: a compiled regular expression and a user function are *oracle
 predicates* (`Oracle`), supplied as truth tables per case by the harness.
 
-Two repairs of /repo are mirrored in their repaired form (`Variant.repaired`), the unrepaired behaviour is kept as
-`Variant.unrepaired` for witness theorems:
-* (a) a search with no criteria at all returns every tag *also* with a limit / via the singular methods
-  (`fixes/C10-no-criteria-limit.diff`, element.py:1118);
-* (b) a function given as the name criterion is not called a second time with the prefixed name string
-  (`fixes/C10-name-function-once.diff`, filter.py:519).
-Two known findings are mirrored as the code behaves: `limit=0` and criteria that yield no rule. -/
+`Variant.repaired` mirrors /repo HEAD: bs4 4.13.0 plus the three C10 repairs that are committed there —
+* (a) `noCritBranch`: a search with no criteria at all returns every tag *also* with a limit / via the singular
+  methods (`fixes/C10-no-criteria-limit.diff`, element.py `_find_all`);
+* (b) `retryFn = false`: a function given as the name criterion is not called a second time with the prefixed name
+  string (`fixes/C10-name-function-once.diff`, filter.py `matches_tag`);
+* (f) `_attribute_match` retries the joined value when `len(attr_values) != 1`, so a multi-valued attribute without
+  values (`class=""` → `[]`) is matched as the empty string (`fixes/C10-empty-multivalued-attr.diff`; the code
+  before that repair is `attributeMatchOld`).
+`Variant.unrepaired` switches (a) and (b) off (4.13.0 as shipped). `Variant.proposed` additionally switches on two
+patches that are **proposed, not applied** (`fixes/proposed/`), whose absence is recorded as known findings:
+* (d) `deadCheck`: a criterion that yields no match rule (an empty list, a list of nested lists) matches nothing
+  also when combined with other criteria — `SoupStrainer.matches_nothing` (`C10-empty-list-combined`);
+* (e) `attrsDict`: the shortcuts of `_find_all` are taken only when `attrs` is an empty *dict*; a falsy non-dict
+  value ("" / None / False / []) is a restriction on `class` on every path (`C10-falsy-attrs-ignored`).
+A third known finding is mirrored as the code behaves: `limit=0` (pinned by the repo test `test_find_all_limit`). -/
 namespace BS.Search
 
 /-! ## Trees -/
@@ -225,10 +233,16 @@ def prefixedName (e : Elem) : Option PStr :=
 structure Variant where
   retryFn : Bool        -- unrepaired (b): a name *function* is retried with the prefixed name string
   noCritBranch : Bool   -- repaired (a): `_find_all` has a branch for "no criteria at all" honouring `limit`
+  deadCheck : Bool      -- proposed (d): `SoupStrainer.matches_nothing` is consulted
+  attrsDict : Bool      -- proposed (e): the shortcuts test `isinstance(attrs, dict) and not attrs`, not `not attrs`
   deriving Repr, DecidableEq
 
-def Variant.repaired : Variant := ⟨false, true⟩
-def Variant.unrepaired : Variant := ⟨true, false⟩
+/-- /repo HEAD -/
+def Variant.repaired : Variant := ⟨false, true, false, false⟩
+/-- bs4 4.13.0 as shipped (apart from `_attribute_match`, see `attributeMatchOld`) -/
+def Variant.unrepaired : Variant := ⟨true, false, false, false⟩
+/-- /repo HEAD plus the two proposed patches `fixes/proposed/C10-*.diff` -/
+def Variant.proposed : Variant := ⟨false, true, true, true⟩
 
 /-- One turn of the name-rule loop (filter.py:518-520): `rule.matches_tag(tag) or (prefixed_name is not None and
     [rule.function is None and] rule.matches_string(prefixed_name))`, with the calls it makes. -/
@@ -276,8 +290,15 @@ def joinedValue : Option AttrVal → PStr
 def helperMatch (O : Oracle) (rules : List Rule) (vals : List (Option PStr)) : Bool :=
   rules.any (fun r => vals.any (fun x => r.matchesString O x))
 
-/-- `SoupStrainer._attribute_match` (filter.py:545-578), incl. the retry on the space-joined value. -/
+/-- `SoupStrainer._attribute_match` (filter.py `_attribute_match`), incl. the retry on the space-joined value when
+    `len(attr_values) != 1` (repair f: a multi-valued attribute without values is the empty string). -/
 def attributeMatch (O : Oracle) (v : Option AttrVal) (rules : List Rule) : Bool :=
+  let vals := attrValues v
+  helperMatch O rules vals ||
+    (decide (vals.length ≠ 1) && helperMatch O rules [some (joinedValue v)])
+
+/-- `_attribute_match` before repair (f): the retry only for `len(attr_values) > 1` (4.13.0 as shipped) -/
+def attributeMatchOld (O : Oracle) (v : Option AttrVal) (rules : List Rule) : Bool :=
   let vals := attrValues v
   helperMatch O rules vals ||
     (decide (vals.length > 1) && helperMatch O rules [some (joinedValue v)])
@@ -304,12 +325,20 @@ structure Strainer where
   nameRules : List Rule
   attrFlat : List (PStr × Rule)
   stringRules : List Rule
+  /-- `matches_nothing` (proposed patch d; not consulted by /repo HEAD): some criterion was given that yields no
+      rule at all -/
+  dead : Bool
   deriving Repr
+
+def Crit.isNone (c : Crit) : Bool := c = .atom .none
 
 def mkStrainer (q : Query) : Strainer :=
   { nameRules := makeRules q.name
     attrFlat := q.attrPairs.flatMap (fun p => (makeRules p.2).map (fun r => (p.1, r)))
-    stringRules := makeRules q.string }
+    stringRules := makeRules q.string
+    dead := (!q.name.isNone && (makeRules q.name).isEmpty)          -- `name is not None and not self.name_rules`
+      || q.attrPairs.any (fun p => (makeRules p.2).isEmpty)          -- `if not rules: self.matches_nothing = True`
+      || (!q.string.isNone && (makeRules q.string).isEmpty) }
 
 def Strainer.rulesFor (s : Strainer) (a : PStr) : List Rule := (s.attrFlat.filter (·.1 == a)).map (·.2)
 
@@ -342,7 +371,9 @@ def matchesTag (O : Oracle) (v : Variant) (s : Strainer) (e : Elem) : Bool × Li
 
 /-- `SoupStrainer.match` (filter.py:650-668). -/
 def matchElem (O : Oracle) (v : Variant) (s : Strainer) (e : Elem) : Bool × List Call :=
-  if e.isTag then matchesTag O v s e
+  if v.deadCheck && s.dead then (false, [])     -- proposed d: `if self.matches_nothing: return False` (for tags the
+                                                -- patch has the same test at the top of `matches_tag`, reached from here)
+  else if e.isTag then matchesTag O v s e
   else if s.nameRules.isEmpty && s.attrFlat.isEmpty then
     (s.stringRules.any (fun r => r.matchesString O e.str), [])
   else (false, [])
@@ -372,8 +403,6 @@ def filterLoop (m : Elem → Bool × List Call) (limit : Option Nat) : List Elem
         (y.1, x.2 ++ y.2)
     else filterLoop m limit rest n
 
-def Crit.isNone (c : Crit) : Bool := c = .atom .none
-
 /-- Python truth value of a criterion object (for `not attrs`). -/
 def Crit.truthy : Crit → Bool
   | .atom .none => false
@@ -388,6 +417,11 @@ def Crit.truthy : Crit → Bool
 def AttrsArg.truthy : AttrsArg → Bool
   | .dict d => !d.isEmpty
   | .sugar c => c.truthy
+
+/-- `isinstance(attrs, dict) and not attrs` -/
+def AttrsArg.isEmptyDict : AttrsArg → Bool
+  | .dict d => d.isEmpty
+  | .sugar _ => false
 
 def limitTruthy : Option Nat → Bool
   | none => false
@@ -409,7 +443,8 @@ def generalPath (O : Oracle) (v : Variant) (q : Query) (limit : Option Nat) (ax 
 
 /-- `PageElement._find_all` (element.py:1079-1143; with repair (a) when `v.noCritBranch`). -/
 def findAllImpl (O : Oracle) (v : Variant) (q : Query) (limit : Option Nat) (ax : List Elem) : List Elem × List Call :=
-  let basic := q.string.isNone && !q.attrs.truthy && q.kwargs.isEmpty
+  let noAttrs := if v.attrsDict then q.attrs.isEmptyDict else !q.attrs.truthy     -- `not attrs` / proposed e
+  let basic := q.string.isNone && noAttrs && q.kwargs.isEmpty
   if v.noCritBranch && basic && q.name.isNone then
     -- repaired: no criteria at all = every tag, up to the limit (`if limit and len(result) >= limit: break`)
     let tags := ax.filter (·.isTag)
@@ -501,17 +536,29 @@ def Crit.satName (O : Oracle) (c : Crit) (e : Elem) : Bool :=
                  | none => false)))
 
 /-- An attribute value satisfies a criterion: a missing attribute is `None`; a multi-valued attribute matches if
-    any single value or the space-joined value does. -/
+    any single value or the space-joined value does (a multi-valued attribute without values is the empty string). -/
 def Crit.satAttr (O : Oracle) (c : Crit) (v : Option AttrVal) : Bool :=
   (attrValues v).any (fun x => c.sat O x) ||
-    (decide ((attrValues v).length > 1) && c.sat O (some (joinedValue v)))
+    (decide ((attrValues v).length ≠ 1) && c.sat O (some (joinedValue v)))
 
 def Query.hasTagCriteria (q : Query) : Bool := !q.name.isNone || !q.attrPairs.isEmpty
 
 def Query.noCriteria (q : Query) : Bool := q.name.isNone && q.attrPairs.isEmpty && q.string.isNone
 
+def Atom.isNoneB : Atom → Bool
+  | .none => true
+  | _ => false
+
+/-- the criterion offers no alternative at all: an empty list, a list of nested lists and `None`s — "any of nothing" -/
+def Crit.noAlternative (c : Crit) : Bool := c.atoms.all Atom.isNoneB
+
+/-- some criterion of the query was given but offers no alternative: nothing can satisfy the query -/
+def Query.unsatisfiable (q : Query) : Bool :=
+  (!q.name.isNone && q.name.noAlternative) || q.attrPairs.any (fun p => p.2.noAlternative)
+    || (!q.string.isNone && q.string.noAlternative)
+
 /-- **The documented meaning of a query on one element.**
-    * no criteria at all: every tag;
+    * no criteria at all: every tag; a criterion that offers no alternative (an empty list): nothing;
     * a tag: it must satisfy the name criterion (if any), for every constrained attribute one of the criteria
       given for that attribute, and its `.string` the string criterion (if any); a query with only a string
       criterion finds strings, not tags;
@@ -519,6 +566,7 @@ def Query.noCriteria (q : Query) : Bool := q.name.isNone && q.attrPairs.isEmpty 
       (`ElementFilter.filter` never yields an empty string). -/
 def sat (O : Oracle) (q : Query) (e : Elem) : Bool :=
   if q.noCriteria then e.isTag
+  else if q.unsatisfiable then false
   else if e.isTag then
     q.hasTagCriteria
     && (q.name.isNone || q.name.satName O e)
